@@ -27,13 +27,20 @@
    a call that raises leaves no lock and leaves the pid CONSISTENT — its reference and every cid list
    as before the call, or no reference and in no list; never half-bound
    ([C13g_one_off_fault_pid_consistent]; non-vacuous: [C13g_bound_pid_fault_consistent]).
-   NOT proved in general (menu only): (F2) when the flock itself fails; the "can be stored again at
-   once" retry for a pid that was already bound, and for store_object with a stream source or supplied
-   size / checksum.  For PERSISTENT faults (F4) is false: witness
+   (F4''), ONE-OFF faults, THE RETRY (FaultRetry.v): every retryable call — tag_object, or store_object(pid)
+   with any readable source and any size / checksum argument that matches, i.e. exactly the calls
+   that succeed fault-free for an unbound pid ([C13g_retryable_iff_succeeds]) —, the pid bound or
+   not before: a call that raises leaves the earlier binding intact, or the pid unbound AND the same
+   call issued again at once succeeds and binds the pid completely, whatever the failure left behind
+   (temp files, the object stored but not tagged) ([C13g_one_off_fault_retry],
+   [C13g_one_off_fault_unbound_retry], [C13g_one_off_fault_intact_or_retry]; non-vacuous:
+   [C13g_retry_after_leftovers]).
+   NOT proved in general (menu only): (F2) when the flock itself fails.
+   For PERSISTENT faults (F4) is false: witness
    [C13g_persistent_fault_defeats_rollback], and the full statement [C13_general_statement] is
    refuted by it ([C13g_statement_false]). *)
 From HS Require Import Base PyVal FS Ops Spec Sched Refine CrashFault Integrity CrashGeneral FaultGeneral
-  FaultSuccess FaultPersist FaultBound.
+  FaultSuccess FaultPersist FaultBound FaultRetry.
 From HS Require Bracket Indep.
 
 (* ---------- the fault semantics covered ---------- *)
@@ -517,3 +524,142 @@ Example C13g_bound_pid_fault_consistent :
   run_fault (FWait 0 false) w1 (api (CStore (Some 1) SrcStream 8 1 VSzBad VCkNone)) = Some (w1, Exn EOSError).
 Proof. exact bound_pid_fault_consistent. Qed.
 Print Assumptions C13g_bound_pid_fault_consistent.
+
+(* ---------- (F4'') ONE-OFF faults: the retry (FaultRetry.v) ---------- *)
+
+(* the calls that can succeed at all for an unbound pid *)
+Theorem C13g_retryable_def :
+  forall c : call,
+    retryable c <->
+    match c with
+    | CTag _ _ => True
+    | CStore (Some _) s _ _ sz ck => src_ok s = true /\ sz <> VSzBad /\ ck <> VCkBad
+    | _ => False
+    end.
+Proof. exact (fun c => iff_refl _). Qed.
+Print Assumptions C13g_retryable_def.
+
+Theorem C13g_retryable_iff_succeeds :
+  forall (w0 : world) (c : call) (p : pid),
+    Inv w0 ->
+    (match c with CStore _ _ _ _ _ _ | CTag _ _ => true | _ => false end) = true ->
+    call_pid c = Some p -> lookup (APidRef p) (fs w0) = None ->
+    (retryable c <-> exists (w1 : world) (v1 : value), run_seq w0 (api c) = Some (w1, Val v1)).
+Proof. exact retryable_iff_succeeds. Qed.
+Print Assumptions C13g_retryable_iff_succeeds.
+
+Theorem C13g_pid_unbound_def :
+  forall (m : fmap) (p : pid),
+    pid_unbound m p <->
+    (lookup (APidRef p) m = None /\
+     forall (k : cid) (l : list pid), lookup (ACidRef k) m = Some (CLines l) -> ~ In p l).
+Proof. exact (fun m p => iff_refl _). Qed.
+Print Assumptions C13g_pid_unbound_def.
+
+Theorem C13g_pid_bound_to_def :
+  forall (m : fmap) (p : pid) (c : cid),
+    pid_bound_to m p c <->
+    (lookup (APidRef p) m = Some (CCid c) /\
+     (exists l : list pid, lookup (ACidRef c) m = Some (CLines l) /\ In p l) /\
+     forall (k : cid) (l : list pid), lookup (ACidRef k) m = Some (CLines l) -> In p l -> k = c).
+Proof. exact (fun m p c => iff_refl _). Qed.
+Print Assumptions C13g_pid_bound_to_def.
+
+Theorem C13g_bound_completely_def :
+  forall (w : world) (p : pid),
+    bound_completely w p <-> (locks w = [] /\ exists c : cid, pid_bound_to (fs w) p c).
+Proof. exact (fun w p => iff_refl _). Qed.
+Print Assumptions C13g_bound_completely_def.
+
+(* what the successful retry answered and left: the pid bound to the cid of the call; for
+   store_object the answer names the call's cid and size, the object is there, retrieve_object
+   serves it (and it is the call's content when the sizes are consistent, C10g_call_size_ok_def);
+   every other pid as in w0 (WI: C10g_WI_def) *)
+Theorem C13g_retry_effect_def :
+  forall (w0 : world) (c : call) (p : pid) (w2 : world) (v : value),
+    retry_effect w0 c p w2 v <->
+    ((forall cd : cid,
+        (match c with CStore _ _ b _ _ _ => Some b | CTag _ k => Some k | _ => None end) = Some cd ->
+        pid_bound_to (fs w2) p cd) /\
+     (forall (s : src) (b n : nat) (sz : vsz) (ck : vck), c = CStore (Some p) s b n sz ck ->
+        v = VMeta b n /\
+        exists x : fcontent, lookup (AObj b) (fs w2) = Some x /\ retr w2 p = Some (Val x) /\
+                             (call_size_ok w0 c -> x = CData b n n)) /\
+     WI w0 p w2).
+Proof. exact (fun w0 c p w2 v => iff_refl _). Qed.
+Print Assumptions C13g_retry_effect_def.
+
+(* THE RETRY: every state satisfying the invariant, every retryable call naming p, every one-off
+   fault position: if the call raised and p is unbound afterwards, the same call run again at once,
+   from the world the failure left, succeeds and binds p completely *)
+Theorem C13g_one_off_fault_retry :
+  forall (w0 : world) (c : call) (p : pid) (k : nat) (w : world) (e : exn),
+    Inv w0 -> call_pid c = Some p -> retryable c ->
+    run_fault (FWait k false) w0 (api c) = Some (w, Exn e) ->
+    pid_unbound (fs w) p ->
+    exists (w2 : world) (v : value),
+      run_seq w (api c) = Some (w2, Val v) /\ bound_completely w2 p /\ retry_effect w0 c p w2 v.
+Proof. exact one_off_fault_retry. Qed.
+Print Assumptions C13g_one_off_fault_retry.
+
+(* the pid unbound BEFORE the call: the failed call leaves no lock and the pid unbound, and the
+   retry succeeds *)
+Theorem C13g_one_off_fault_unbound_retry :
+  forall (w0 : world) (c : call) (p : pid) (k : nat) (w : world) (e : exn),
+    Inv w0 -> call_pid c = Some p -> retryable c ->
+    lookup (APidRef p) (fs w0) = None ->
+    run_fault (FWait k false) w0 (api c) = Some (w, Exn e) ->
+    locks w = [] /\ pid_unbound (fs w) p /\
+    exists (w2 : world) (v : value),
+      run_seq w (api c) = Some (w2, Val v) /\ bound_completely w2 p /\ retry_effect w0 c p w2 v.
+Proof. exact one_off_fault_unbound_retry. Qed.
+Print Assumptions C13g_one_off_fault_unbound_retry.
+
+(* C13's second clause as worded, the pid bound or not before: earlier binding intact, or unbound
+   and can be stored again at once *)
+Theorem C13g_one_off_fault_intact_or_retry :
+  forall (w0 : world) (c : call) (p : pid) (k : nat) (w : world) (e : exn),
+    Inv w0 -> call_pid c = Some p -> retryable c ->
+    run_fault (FWait k false) w0 (api c) = Some (w, Exn e) ->
+    locks w = [] /\
+    ((lookup (APidRef p) (fs w) = lookup (APidRef p) (fs w0) /\
+      forall k' : cid, lookup (ACidRef k') (fs w) = lookup (ACidRef k') (fs w0))
+     \/
+     (pid_unbound (fs w) p /\
+      exists (w2 : world) (v : value),
+        run_seq w (api c) = Some (w2, Val v) /\ bound_completely w2 p /\ retry_effect w0 c p w2 v)).
+Proof. exact one_off_fault_intact_or_retry. Qed.
+Print Assumptions C13g_one_off_fault_intact_or_retry.
+
+(* non-vacuity, store {2 -> 7}: store_object(1, content 7, matching size and checksum) failing (a) at
+   the write of the reference temp file, (b) at the removal of the object temp file: raises, the temp
+   file stays, the retry binds 1 -> 7; (c) empty store, store_object(1, stream of content 8, size
+   given) failing at makedirs for the reference: the object stays untagged, the retry takes the
+   de-duplication path and binds 1 -> 8 *)
+Example C13g_retry_after_leftovers :
+  let w0 := mkWorld [(AObj 7, CData 7 1 1); (APidRef 2, CCid 7); (ACidRef 7, CLines [2])] [] in
+  let c1 := CStore (Some 1) SrcPath 7 1 VSzOk VCkOk in
+  let c2 := CStore (Some 1) SrcStream 8 2 VSzOk VCkNone in
+  Inv w0 /\ retryable c1 /\ retryable c2 /\
+  (let w := mkWorld [(AObj 7, CData 7 1 1); (APidRef 2, CCid 7); (ACidRef 7, CLines [2]);
+                     (ATmp ArRefs 0 0, CEmpty)] [] in
+   site_op 7 w0 (api c1) = Some (OpenWr (ATmp ArRefs 0 0) (CCid 7)) /\
+   run_fault (FWait 7 false) w0 (api c1) = Some (w, Exn EOSError) /\
+   run_seq w (api c1) =
+     Some (mkWorld [(AObj 7, CData 7 1 1); (APidRef 1, CCid 7); (APidRef 2, CCid 7);
+                    (ACidRef 7, CLines [2; 1]); (ATmp ArRefs 0 0, CEmpty)] [], Val (VMeta 7 1))) /\
+  (let w := mkWorld [(AObj 7, CData 7 1 1); (APidRef 2, CCid 7); (ACidRef 7, CLines [2]);
+                     (ATmp ArObj 0 0, CData 7 1 1)] [] in
+   site_op 3 w0 (api c1) = Some (Remove (ATmp ArObj 0 0)) /\
+   run_fault (FWait 3 false) w0 (api c1) = Some (w, Exn EOSError) /\
+   run_seq w (api c1) =
+     Some (mkWorld [(AObj 7, CData 7 1 1); (APidRef 1, CCid 7); (APidRef 2, CCid 7);
+                    (ACidRef 7, CLines [2; 1]); (ATmp ArObj 0 0, CData 7 1 1)] [], Val (VMeta 7 1))) /\
+  (let w := mkWorld [(AObj 8, CData 8 2 2)] [] in
+   site_op 5 empty_world (api c2) = Some (MkDirs (APidRef 1)) /\
+   run_fault (FWait 5 false) empty_world (api c2) = Some (w, Exn EOSError) /\
+   run_seq w (api c2) =
+     Some (mkWorld [(AObj 8, CData 8 2 2); (APidRef 1, CCid 8); (ACidRef 8, CLines [1])] [],
+           Val (VMeta 8 2))).
+Proof. exact retry_after_leftovers. Qed.
+Print Assumptions C13g_retry_after_leftovers.
